@@ -18,6 +18,7 @@ from harness import common
 
 LEVEL = "model_checking"
 _DIR = None
+_N = [0]
 
 
 def _init(d):
@@ -71,7 +72,8 @@ def observe(args):
     hdu, img = make_hdu(R, C, hdrkind, affine, seed)
     orig = {k: hdu.header[k] for k in WCSKEYS[hdrkind]}
     rec["inp"] = [[int(v) for v in row] for row in img]
-    base = os.path.join(_DIR, "c15_%d_%d_%d_%s_%s_%d" % (R, C, f, hdrkind, inputkind, int(affine)))
+    _N[0] += 1
+    base = os.path.join(_DIR, "c15_%d_%d_%d_%s_%s_%d_%d_%d" % (R, C, f, hdrkind, inputkind, int(affine), os.getpid(), _N[0]))
     try:
         if inputkind == "hdu":
             comp = fits_tools.compress(fits.HDUList([hdu]), f)
